@@ -23,6 +23,11 @@ pub trait DirectLDLSolver<T: FloatT>: DirectLDLSolverReqs<T> + HasLinearSolverIn
     fn offset_values(&mut self, index: &[usize], offset: T, signs: &[i8]);
     fn solve(&mut self, kkt: &CscMatrix<T>, x: &mut [T], b: &[T]);
     fn refactor(&mut self, kkt: &CscMatrix<T>) -> bool;
+    /// verification hook: the engine's own copy of the matrix values, in the order of the matrix it was given
+    #[cfg(clarabel_verif)]
+    fn verif_values(&self) -> Option<Vec<f64>> {
+        None
+    }
     /// verification hook: dynamic regularisation (enable, eps, delta) the engine was configured with
     #[cfg(clarabel_verif)]
     fn verif_reg(&self) -> Option<(bool, f64, f64)> {
